@@ -168,5 +168,5 @@ Lemma nack_answer_one_per_request size wid a seqs :
 Proof.
   split; [unfold nack_answer; apply flat_map_concat_map|].
   unfold nack_answer. induction seqs as [|x l IH]; simpl; auto.
-  rewrite app_length. destruct (designated size a x); simpl; lia.
+  rewrite app_length. destruct (designated size a x); simpl; Show; lia.
 Qed.
